@@ -144,7 +144,12 @@ impl<T: AsRef<[u8]>> ExtHeaderPacket<T> {
         let mut len = 2;
         len += self.next_header_size();
 
-        if len <= buffer.len() {
+        if len > buffer.len() {
+            return Err(Error);
+        }
+
+        // The length field counts the octets that follow it: `payload` slices that many.
+        if len + self.length() as usize <= buffer.len() {
             Ok(())
         } else {
             Err(Error)
